@@ -198,6 +198,11 @@ def harness(ctx, exe, args, env=None, timeout=1500):
     rc, out = vlib.sh([exe] + [str(a) for a in args], timeout=timeout, env=e)
     if rc != 0 or "histories=" not in out:
         raise vlib.MachineryError("harness failed (%s): %s\n%s" % (rc, args, out[-3000:]))
+    m = re.search(r"skipped_after_timeouts=(\d+)", out)
+    if m and int(m.group(1)) > 0:
+        ctx.log("harness: %s histories not run after repeated timeouts (%s)" % (m.group(1), args[:3]))
+        with _lock:
+            ctx.notes.setdefault("skipped_after_timeouts", []).append({"args": [str(a) for a in args[:3]], "n": int(m.group(1))})
     return out
 
 
@@ -748,6 +753,9 @@ def run_replay(ctx, exe):
         cam.confirm()
         ctx.cov["traces_validated_against_impl"] += cam.stats["accepted"]
         ctx.cov["evaluations"] += cam.stats["events"]
+        ctx.cov["distinct_nontrivial"] += len(cam.nontrivial)
+        for smp in cam.samples:
+            ctx.sample(smp)
     ctx.cov["rule"] = "replay of a recorded script"
 
 
@@ -760,6 +768,12 @@ def run(ctx):
         "with a weak hash function to force collision chains and chain splits on growth",
         "the skip list's coin flips come from a seeded source through hook H2 so that a history is reproducible",
     ]
+    if vlib.REPO != "/repo":
+        # runs against a scratch tree (mutation self-test) keep their files apart from the normal runs
+        ctx.out = ctx.out + "-alt"
+        import shutil
+        shutil.rmtree(ctx.out, ignore_errors=True)
+        os.makedirs(ctx.out)
     if ctx.replay:
         run_replay(ctx, exe)
         return
@@ -770,7 +784,12 @@ def run(ctx):
     def mc(m, cfg):
         SLOTS.acquire(2)
         try:
-            return ctx.model_check("Containers/%s.tla" % m, cfg, workers=2, timeout=900, extra=["-noGenerateSpecTE"])
+            r = ctx.model_check("Containers/%s.tla" % m, cfg, workers=2, timeout=900, extra=["-noGenerateSpecTE"],
+                                coverage=not quick)
+            dead = [a for a, (taken, _) in r.coverage.items() if taken == 0 and a not in ("Init",)]
+            if not quick and dead:
+                raise vlib.MachineryError("model %s: actions never taken: %s" % (m, dead))
+            return r
         finally:
             SLOTS.release(2)
     with cf.ThreadPoolExecutor(max_workers=5) as ex:
